@@ -1,5 +1,7 @@
 import Driver.Common
 import IoraModel.Model.Assets
+import IoraModel.Model.AssetsRace
+import Driver.AssetsServe
 namespace Iora.Driver.Assets
 open Iora Iora.Assets Iora.Driver
 
@@ -189,9 +191,64 @@ def step (st : St) : List String → St × String
       | _, _ => (st, "bad-op")
     | some _, some _, some _, some _, none => (st, "no-instance")
     | _, _, _, _, _ => (st, "bad-op")
+  | ["readcfg", k, m] =>
+    -- the chunking of `read` is invisible in the result (theorem A6_chunking_irrelevant): the model has nothing to change
+    match k.toNat?, m.toNat? with
+    | some _, some _ => (st, "ok")
+    | _, _ => (st, "bad-op")
+  | ["selftest"] => (st, "ok")
+  | ["readscript", p, script] =>
+    let cmds := parseAll (fun (t : String) => if t = "e" then some ReadCmd.eintr else if t = "x" then some ReadCmd.err
+                                              else t.toNat?.map ReadCmd.atMost) (listOf script)
+    match ofHex p, cmds with
+    | some p, some cmds => (st, match readFileScripted st.fs p cmds with | some d => s!"some {toHex d}" | none => "none")
+    | _, _ => (st, "bad-op")
+  | ["race", kindA, nameA, bop, nameB, mk, mpath, mdata] =>
+    -- two threads, gated at A's first open(2): the small-step machine of Model/AssetsRace.lean on the corresponding schedule
+    match ofHex nameA, ofHex nameB, ofHex mpath, ofHex mdata, st.a with
+    | some nA, some nB, some mp, some md, some (.filesystem fst) =>
+      let bOp? : Option Race.RaceOp := match bop with
+        | "static" => some (.static nB) | "template" => some (.template nB) | "reload" => some .reload | "none" => some .none | _ => none
+      let fs1? : Option Fs := match mk with
+        | "l" => some (st.fs.set (locOf mp) (.link md))
+        | "f" => some (st.fs.set (locOf mp) (.file md))
+        | "r" => some (st.fs.remove (locOf mp))
+        | "n" => some st.fs
+        | _ => none
+      match bOp?, fs1?, (kindA == "static" || kindA == "template") with
+      | some b, some fs1, true =>
+        -- the lexical filter of getStatic/getTemplate runs before the filesystem-mode lookup the machine models (it touches neither
+        -- the file system nor the caches): a refused name ends that thread's call at once
+        let rejB := (bop == "static" || bop == "template") && lexicallyRejected nB
+        let b' : Race.RaceOp := if rejB then .none else b
+        let showRet : Sum Res (Option Bytes) → String := fun r => match r with | .inl x => showRes x | .inr t => showTpl t
+        let showB (r : Option (Sum Res (Option Bytes))) : String :=
+          if rejB then (if bop == "static" then "rejected" else "none") else
+          match r with
+          | some r => showRet r
+          | none => if bop == "reload" then "ok" else "-"
+        if lexicallyRejected nA then
+          -- A returns without touching anything; B then runs alone (sequential refinement R1: the machine with A := an op that
+          -- never reaches `build`)
+          let (rb, a') : String × Iora.Assets.Assets := match b' with
+            | .static n => let (r, a') := getStatic st.fs (.filesystem fst) n; (showRes r, a')
+            | .template n => let (r, a') := getTemplate st.fs (.filesystem fst) n; (showTpl r, a')
+            | .reload => ("ok", reload (.filesystem fst))
+            | .none => (if rejB then (if bop == "static" then "rejected" else "none") else "-", .filesystem fst)
+          ({ st with a := some a' }, s!"{if kindA == "static" then "rejected" else "none"} | {rb} gated=0")
+        else
+          let o := Race.gatedRace st.fs fs1 fst (kindA == "template") nA b'
+          ({ fs := if o.gated then fs1 else st.fs, a := some (.filesystem o.st) }, s!"{showRet o.resA} | {showB o.resB} gated={bit o.gated}")
+      | _, _, _ => (st, "bad-op")
+    | some _, some _, some _, some _, some (.embedded _) => (st, "race unsupported")
+    | some _, some _, some _, some _, none => (st, "no-instance")
+    | _, _, _, _, _ => (st, "bad-op")
   | ["reload"] => ({ st with a := st.a.map reload }, "ok")
   | "storm" :: _ => ({ st with a := st.a.map reload }, "storm ok")
-  | _ => (st, "bad-op")
+  | toks =>
+    match Iora.Driver.AssetsServe.stepServe st.fs st.a toks with
+    | some (a', out) => ({ st with a := a' }, out)
+    | none => (st, "bad-op")
 
 def main : IO Unit := runLines ({} : St) step
 
